@@ -256,13 +256,14 @@ def evaluate(ctx, prop, inputs, impl, nontrivial):
         if "panic" in out or "error" in out:
             ctx.l2_broken.append({"stream": "engine-harness", "detail": str(out)[:500]})
             continue
+        plans = out.get("plans") or scn["plans"]
         for k, run in enumerate(out["runs"]):
             runs += 1
             if run.get("watchdog"):
-                ctx.l2_broken.append({"stream": "engine-scheduler-watchdog", "id": scn["id"], "plan": scn["plans"][k]})
+                ctx.l2_broken.append({"stream": "engine-scheduler-watchdog", "id": scn["id"], "plan": plans[k]})
                 continue
             for sig, what in ORACLES[prop](scn, run):
-                one = dict(scn, plans=[scn["plans"][k]])
+                one = dict(scn, plans=[plans[k]])
                 ctx.violation(dict(sig, property=prop), what, {"area": "engine", "input": one, "observed": {k2: run[k2] for k2 in ("durable", "responses", "events", "crashed")}})
             h = shash({"r": scn["requests"], "t": [t for t in run["trace"] if isinstance(t, dict) and "a" in t and "at" in t]})
             if h not in seen and nontrivial(scn, run):
@@ -287,6 +288,7 @@ def validate_traces(ctx, inputs, impl, components=None):
     """L2: every observed run must be accepted by the Lean component models (trace validation)."""
     path_in, path_out = ctx.path("enginetrace.in.jsonl"), ctx.path("enginetrace.model.jsonl")
     rows = [{"id": s["id"], "requests": s["requests"], "runs": impl[s["id"]]["runs"]} for s in inputs if "runs" in impl.get(s["id"], {})]
+    plans_of = {s["id"]: (impl[s["id"]].get("plans") or s["plans"]) for s in inputs if "runs" in impl.get(s["id"], {})}
     write_jsonl(path_in, rows)
     p = run_driver("enginetrace", path_in, path_out)
     if p.returncode != 0:
@@ -308,7 +310,7 @@ def validate_traces(ctx, inputs, impl, components=None):
                 if rejected[rej["component"]] <= 2:
                     scn = byid[r["id"]]
                     ctx.l2_broken.append({"stream": "trace-validation:" + rej["component"], "id": r["id"], "why": rej["why"], "event_index": rej["event"],
-                                          "input": dict(scn, plans=[scn["plans"][k]])})
+                                          "input": dict(scn, plans=[plans_of[r["id"]][k]])})
     ctx.cov["traces_validated_against_impl"] = validated
     ctx.cov["trace_rejections"] = dict(rejected)
     return validated
